@@ -113,7 +113,28 @@ func (e mev) coq() string {
 	panic("bad event")
 }
 
-var errStream = errors.New("stream error")
+var errStream = errors.New("stream error: 100%")
+
+// texts that reach the printers inside error and status messages: format verbs, a trailing
+// per cent sign, quotes, backslashes, control characters, HTML-sensitive and non-ASCII runes,
+// JSON inside the text (seed C20f: a rendered line used as a format string)
+var hostileTexts = []string{
+	"plain text",
+	"exceeded quota: used 120% of limits.cpu",
+	"traffic weight 50%",
+	"%s %d %v %!",
+	"GET /apis/a%2Fb failed",
+	"msg \"quoted\" \n second line",
+	"back\\slash and tab\t",
+	"<html> & 'apos'",
+	"caf\u00e9 \u6f22 \u2028 end",
+	"{\"json\":\"inside\"}",
+	"100%",
+}
+
+func hostile(i int) string {
+	return hostileTexts[((i%len(hostileTexts))+len(hostileTexts))%len(hostileTexts)]
+}
 
 func groupName(n int) string { return fmt.Sprintf("group-%d", n) }
 
@@ -141,7 +162,7 @@ func (e mev) real() event.Event {
 	case "act":
 		var err error
 		if e.herr {
-			err = fmt.Errorf("reason %d: %s", e.id, astatStr[e.st])
+			err = fmt.Errorf("reason %d: %s: %s", e.id, astatStr[e.st], hostile(3*e.id+e.st+e.ak))
 		}
 		// prune / delete events in their usual shapes come from the real event
 		// factories of pkg/apply/prune (skipped and failed events carry an error)
@@ -174,14 +195,14 @@ func (e mev) real() event.Event {
 		return event.Event{Type: event.StatusType, StatusEvent: event.StatusEvent{
 			Identifier: universe[e.id],
 			PollResourceInfo: &pollevent.ResourceStatus{Identifier: universe[e.id], Status: kstatVals[e.st],
-				Message: "msg \"quoted\" \n second line"}}}
+				Message: hostile(5*e.id + e.st)}}}
 	case "validation":
 		ids := object.ObjMetadataSet{}
 		for _, i := range e.ids {
 			ids = append(ids, universe[i])
 		}
 		return event.Event{Type: event.ValidationType, ValidationEvent: event.ValidationEvent{
-			Identifiers: ids, Error: fmt.Errorf("invalid object")}}
+			Identifiers: ids, Error: errors.New("invalid object: " + hostile(len(e.ids)+7*len(ids)))}}
 	}
 	panic("bad event")
 }
